@@ -126,12 +126,14 @@ fn main() {
         "c12enc" => fsex::c12enc(rest),
         "c13dec" => hufx::c13dec(rest),
         "c13enc" => hufx::c13enc(rest),
+        "c13fse" => hufx::c13fse(rest),
         "zfexec" => zf::zfexec(rest),
         "seqrows" => zf::seqrows(rest),
         "dictinfo" => zf::dictinfo(rest),
         "c09trained" => zf::c09trained(rest),
         "mkcorpus" => gen::mkcorpus(rest),
         "encexec" => enc::encexec(rest),
+        "encgeom" => enc::encgeom(rest),
         "encgraph" => enc::encgraph(rest),
         "decbufrand" => ring::decbufrand(rest),
         other => {
